@@ -62,6 +62,7 @@ type msgPlan struct {
 	SlowMs int  `json:"handler_ms,omitempty"`
 	Echo   bool `json:"echo,omitempty"`
 	Go     bool `json:"starts_writers,omitempty"`
+	Panic  bool `json:"handler_panics,omitempty"`
 	Text   bool `json:"text,omitempty"`
 }
 
@@ -190,6 +191,18 @@ func (cs *connState) onMessage(c *websocket.Conn, mt websocket.MessageType, data
 	cs.inMsg++
 	cs.add('M', seq)
 	cs.mu.Unlock()
+	// the end of the callback is logged however it ends: a panicking callback counts as entered and ended
+	defer func() {
+		cs.mu.Lock()
+		cs.inMsg--
+		cs.handled++
+		cs.add('m', seq)
+		cs.mu.Unlock()
+		select {
+		case cs.handledC <- struct{}{}:
+		default:
+		}
+	}()
 	if ok {
 		if flags&flagGo != 0 {
 			cs.startWriters(c)
@@ -212,15 +225,9 @@ func (cs *connState) onMessage(c *websocket.Conn, mt websocket.MessageType, data
 			case <-time.After(8 * time.Second):
 			}
 		}
-	}
-	cs.mu.Lock()
-	cs.inMsg--
-	cs.handled++
-	cs.add('m', seq)
-	cs.mu.Unlock()
-	select {
-	case cs.handledC <- struct{}{}:
-	default:
+		if flags&flagPanic != 0 {
+			panic(fmt.Sprintf("harness: the handler of client message %d of connection %d panics (recovered per job by the connection's executor)", seq, cs.plan.Cid))
+		}
 	}
 }
 
